@@ -1,0 +1,160 @@
+// SPDX-FileCopyrightText: Copyright (c) 2022-2025 Objectionary.com
+// SPDX-License-Identifier: MIT
+
+//! Verification hooks, compiled only with the cargo feature `verif`.
+//!
+//! They expose the internal state of a [`Sodg`] in plain types, rebuild
+//! a graph from such a plain state, and report where the private fields
+//! live in memory. Nothing here is used by the library itself.
+
+#![allow(dead_code)]
+#![allow(missing_docs)]
+#![allow(clippy::all, clippy::pedantic, clippy::nursery)]
+
+use crate::{Hex, Label, Persistence, Sodg, Vertex, MAX_BRANCHES};
+
+/// One vertex slot, as plain data.
+#[derive(Clone, PartialEq, Eq, Debug)]
+pub struct VerifVertex {
+    /// The group tag (0 = absent, 1 = ungrouped, 2.. = group).
+    pub branch: usize,
+    /// 0 = Empty, 1 = Stored, 2 = Taken.
+    pub persistence: u8,
+    /// The bytes of the datum.
+    pub data: Vec<u8>,
+    /// Is the datum stored inline (`Hex::Bytes`)?
+    pub inline: bool,
+    /// The edges, in the order of enumeration.
+    pub edges: Vec<(Label, usize)>,
+}
+
+/// The entire internal state, as plain data.
+#[derive(Clone, PartialEq, Eq, Debug)]
+pub struct VerifSnapshot {
+    /// One entry per slot (`None` if the slot itself is vacant in the map).
+    pub vertices: Vec<Option<VerifVertex>>,
+    /// Member lists of all group slots.
+    pub branches: Vec<Vec<usize>>,
+    /// Unread counters of all group slots.
+    pub stores: Vec<usize>,
+    /// The allocator position.
+    pub next_v: usize,
+}
+
+impl<const N: usize> Sodg<N> {
+    /// Take a plain-data snapshot of the entire internal state.
+    #[must_use]
+    pub fn verif_snapshot(&self) -> VerifSnapshot {
+        let cap = self.vertices.capacity();
+        let mut vertices = Vec::with_capacity(cap);
+        for v in 0..cap {
+            vertices.push(self.vertices.get(v).map(|vtx| VerifVertex {
+                branch: vtx.branch,
+                persistence: match vtx.persistence {
+                    Persistence::Empty => 0,
+                    Persistence::Stored => 1,
+                    Persistence::Taken => 2,
+                },
+                data: vtx.data.bytes().to_vec(),
+                inline: matches!(vtx.data, Hex::Bytes(_, _)),
+                edges: vtx.edges.iter().map(|(a, to)| (*a, *to)).collect(),
+            }));
+        }
+        let mut branches = Vec::with_capacity(MAX_BRANCHES);
+        let mut stores = Vec::with_capacity(MAX_BRANCHES);
+        for b in 0..MAX_BRANCHES {
+            branches.push(
+                self.branches
+                    .get(b)
+                    .map_or_else(Vec::new, |m| m.iter().copied().collect()),
+            );
+            stores.push(self.stores.get(b).copied().unwrap_or(0));
+        }
+        VerifSnapshot {
+            vertices,
+            branches,
+            stores,
+            next_v: self.next_v,
+        }
+    }
+
+    /// Build a graph that is in exactly the given internal state.
+    #[must_use]
+    pub fn verif_restore(s: &VerifSnapshot) -> Self {
+        let mut g = Self::empty(s.vertices.len());
+        for (v, slot) in s.vertices.iter().enumerate() {
+            let Some(p) = slot else {
+                g.vertices.remove(v);
+                continue;
+            };
+            let mut edges = micromap::Map::new();
+            for (a, to) in &p.edges {
+                edges.insert(*a, *to);
+            }
+            let data = if p.inline {
+                let mut a = [0_u8; 8];
+                a[..p.data.len()].copy_from_slice(&p.data);
+                Hex::Bytes(a, p.data.len())
+            } else {
+                Hex::Vector(p.data.clone())
+            };
+            g.vertices.insert(
+                v,
+                Vertex {
+                    branch: p.branch,
+                    data,
+                    persistence: match p.persistence {
+                        0 => Persistence::Empty,
+                        1 => Persistence::Stored,
+                        _ => Persistence::Taken,
+                    },
+                    edges,
+                },
+            );
+        }
+        for b in 0..MAX_BRANCHES {
+            g.branches
+                .insert(b, microstack::Stack::from_vec(s.branches[b].clone()));
+            g.stores.insert(b, s.stores[b]);
+        }
+        g.next_v = s.next_v;
+        g
+    }
+
+    /// Report the addresses of the private fields (needs capacity of 2+).
+    ///
+    /// Layout of `out`: 0..4 the three maps, `next_v` and the size of `Self`;
+    /// 5..6 vertex slots 0 and 1; 7..10 the fields of vertex 0
+    /// (`branch`, `data`, `persistence`, `edges`); 11..12 store slots 0 and 1;
+    /// 13..14 member slots 0 and 1; 15.. sizes of `Vertex`, `Hex`, `Label`,
+    /// the edge map, a member list, and `N`.
+    pub fn verif_probe(&self, out: &mut [usize; 24]) {
+        let addr = |p: *const u8| p as usize;
+        out[0] = addr(std::ptr::addr_of!(self.stores).cast());
+        out[1] = addr(std::ptr::addr_of!(self.branches).cast());
+        out[2] = addr(std::ptr::addr_of!(self.vertices).cast());
+        out[3] = addr(std::ptr::addr_of!(self.next_v).cast());
+        out[4] = std::mem::size_of::<Self>();
+        let v0 = self.vertices.get(0).unwrap();
+        let v1 = self.vertices.get(1).unwrap();
+        out[5] = addr(std::ptr::from_ref(v0).cast());
+        out[6] = addr(std::ptr::from_ref(v1).cast());
+        out[7] = addr(std::ptr::addr_of!(v0.branch).cast());
+        out[8] = addr(std::ptr::addr_of!(v0.data).cast());
+        out[9] = addr(std::ptr::addr_of!(v0.persistence).cast());
+        out[10] = addr(std::ptr::addr_of!(v0.edges).cast());
+        out[11] = addr(std::ptr::from_ref(self.stores.get(0).unwrap()).cast());
+        out[12] = addr(std::ptr::from_ref(self.stores.get(1).unwrap()).cast());
+        out[13] = addr(std::ptr::from_ref(self.branches.get(0).unwrap()).cast());
+        out[14] = addr(std::ptr::from_ref(self.branches.get(1).unwrap()).cast());
+        out[15] = std::mem::size_of::<Vertex<N>>();
+        out[16] = std::mem::size_of::<Hex>();
+        out[17] = std::mem::size_of::<Label>();
+        out[18] = std::mem::size_of::<micromap::Map<Label, usize, N>>();
+        out[19] = std::mem::size_of::<microstack::Stack<usize, { crate::MAX_BRANCH_SIZE }>>();
+        out[20] = N;
+        out[21] = self.vertices.capacity();
+        out[22] = MAX_BRANCHES;
+        out[23] = crate::MAX_BRANCH_SIZE;
+    }
+}
